@@ -331,6 +331,10 @@ pub(crate) mod verif_inject {
         })
     }
 
+    pub(crate) fn clear() {
+        INJECTED.with(|q| q.borrow_mut().clear())
+    }
+
     pub(crate) fn take(lst: &MioListener) -> Option<io::Error> {
         let fd = fd(lst);
         INJECTED.with(|q| q.borrow_mut().iter_mut().find(|(f, _)| *f == fd).and_then(|(_, v)| v.pop_front()))
